@@ -788,6 +788,38 @@ def timeout_raise(ctx, rule="R-TIMEOUT-RAISE"):
             ctx.violated(rule, f, inst, "a server that never answers does not lead to an exception", f.node)
 
 
+def facade_listening(ctx, rule="R-RESTORE"):
+    """the facade's DM14 listener: every path of _listen_for_dm14 that leaves the facade IDLE leaves the listener subscribed
+    (as many subscribe as unsubscribe calls for it on that path) - otherwise the facade never sees another request"""
+    P = ctx.prog
+    f = P.func(M, "_listen_for_dm14")
+    idle = enumv(ctx, "DMState", "IDLE")
+    me = ("attr", SELF, "_listen_for_dm14")
+    n = 0
+    bad = None
+    for r in runs(ctx, f):
+        if r.term in ("raise", "exc"):
+            continue
+        st = [e.value for _, e in r.effects() if e.kind == "store" and e.target == field("state")]
+        started_idle = (mk_cmp("==", field("state"), idle), True) in lits(r.guards())
+        ends_idle = (st[-1] == idle) if st else started_idle
+        if not ends_idle:
+            continue
+        n += 1
+        un = [e for _, e in r.effects() if e.kind == "call" and e.value[1] == ("attr", field("_ca"), "unsubscribe") and e.value[2] == (me,)]
+        su = [e for _, e in r.effects() if e.kind == "call" and e.value[1] == ("attr", field("_ca"), "subscribe") and e.value[2] == (me,)]
+        if len(un) > len(su) and bad is None:
+            bad = un[0]
+    inst = "MemoryAccess._listen_for_dm14: every path that leaves the facade IDLE leaves its DM14 listener subscribed"
+    if n == 0:
+        ctx.unknown(rule, "no path of %s ends in IDLE" % f.qual)
+    elif bad is not None:
+        ctx.violated(rule, f, inst, "a path unsubscribes the facade's own DM14 listener and returns to IDLE without subscribing it again (refusal "
+                     "at the proceed callback): the serving side is deaf to every later request", bad.node)
+    else:
+        ctx.holds(rule, inst)
+
+
 def restore(ctx, rule="R-RESTORE", rule_sib="R-SIBLING-RESET"):
     P = ctx.prog
     # (i) facade read/write: WAIT_QUERY restored to IDLE on every exit, including exceptional ones
